@@ -23,9 +23,10 @@ async def gather_with_cancel(*awaitables: Awaitable[Any]) -> list[Any]:
     cancel the other tasks when one of them raises an exception.
     """
     futures: list[Future[Any]] = [ensure_future(aw) for aw in awaitables]
+    gathered = gather(*futures)
     try:
-        return await gather(*futures)
-    except (Exception, CancelledError):
+        return await gathered
+    except (Exception, CancelledError) as error:
         # This also covers the case that we are cancelled ourselves: gather()
         # then already propagates the cancellation when the first awaitable has
         # been cancelled, while the others may still need time to settle.
@@ -33,4 +34,12 @@ async def gather_with_cancel(*awaitables: Awaitable[Any]) -> list[Any]:
             if not future.done():
                 future.cancel()
         await gather(*futures, return_exceptions=True)
+        if not isinstance(error, CancelledError) and getattr(
+            gathered, "_cancel_requested", False
+        ):
+            # We have been cancelled just when one of the awaitables had failed:
+            # gather() then raises the exception of that awaitable instead, and
+            # since the cancellation had been passed on to gather(), nobody would
+            # notice any more that we should have stopped.
+            raise CancelledError from error
         raise
